@@ -45,3 +45,5 @@ mod c04;
 mod c11;
 #[cfg(kani)]
 mod c08;
+#[cfg(kani)]
+mod c06v;
